@@ -273,6 +273,15 @@ impl Leg for Runs {
                     let threads = if matches!(sched, Sched::Controlled(_)) { ((threads - 1) % 6) + 1 } else { threads };
                     // the scheduler's epochs follow the counting workers only: the extra merges run free
                     let extra_merges = if matches!(sched, Sched::Controlled(_)) { 0 } else { extra_merges };
+                    // a twelfth of the cases: a homopolymer record whose single k-mer has a multiplicity next to 1000 or 10 000
+                    // (k >= 29 gives codes of 18-19 digits: the longest lines a numeric counts file can hold)
+                    let mut recs = recs;
+                    let h = crate::util::fnv64(format!("{}:{}:{}", recs.len(), k, extra_merges).as_bytes());
+                    if h % 12 == 7 && !cont.is_fastq() {
+                        let mult = [999usize, 1000, 1001, 9999, 10_000, 10_001, 1234, 12_345][(h >> 8) as usize % 8];
+                        let b = b"CGTA"[(h >> 16) as usize % 4];
+                        recs.push(Rec { id: format!("poly{}", mult), desc: None, seq: Bytes(vec![b; k - 1 + mult]) });
+                    }
                     Case { recs, cont, k, threads, chunks, acgt, sched, decoys, extra_merges }
                 })
             })
